@@ -5,7 +5,7 @@
 #    /verif/seeded/<PROP>-<letter>/, 3. applies it to /repo, runs the property's
 #    check, reverts.  Prints a one-line verdict.
 P="$1"; L="$2"; shift 2
-WT=/tmp/wt-$P; S=$WT/seeded/$L
+WT=${WTBASE:-/tmp/wt}-$P; S=$WT/seeded/$L; TAG=${TAG:-}
 export GOFLAGS=-mod=mod GOPROXY=off GOSUMDB=off GOTOOLCHAIN=local
 [ -f $S/patch.diff ] || { echo "no patch for $P/$L"; exit 2; }
 cd $WT || exit 2
@@ -28,7 +28,7 @@ rm -f $demo
 echo "[$P/$L] suite-with-change: ${suite:-PASS}"
 echo "[$P/$L] demo with change:    $withc" | cut -c1-300
 echo "[$P/$L] demo without change: $without" | cut -c1-300
-mkdir -p /verif/seeded/$P-$L && cp $S/patch.diff $S/demo_test.go $S/meta.json /verif/seeded/$P-$L/
+mkdir -p /verif/seeded/$P-$TAG$L && cp $S/patch.diff $S/demo_test.go $S/meta.json /verif/seeded/$P-$TAG$L/
 # (c) run the check against it
 cd /repo && git apply --check $S/patch.diff 2>/dev/null || { echo "[$P/$L] patch does not apply to /repo HEAD"; exit 3; }
 git apply $S/patch.diff
